@@ -777,6 +777,20 @@ Handler::ArgResult
    auto  p_arg_hdl = mSubGroupArgs.findArg( key);
 
 
+   if ((p_arg_hdl != nullptr) && !(p_arg_hdl->key() == key))
+   {
+      // the key is only an abbreviation of the sub-group argument: an argument
+      // with exactly this key wins, another abbreviation makes it ambiguous
+      if (auto const other = mArguments.findArg( key))
+      {
+         if (!(other->key() == key))
+            throw runtime_error( "Long argument abbreviation '"
+                                 + format::toString( key)
+                                 + "' matches more than one argument");
+         p_arg_hdl = nullptr;
+      } // end if
+   } // end if
+
    if (p_arg_hdl != nullptr)
    {
       handleIdentifiedArg( p_arg_hdl, key);
